@@ -36,6 +36,8 @@ Record crule := {
   c_global : bool;
   c_private : bool;
   c_strings : list sdecl;
+  c_nlits : list N;             (* per string, the number of literals boreal's Aho-Corasick pass searches for it
+                                   (read through the hook Scanner::verif_describe_strings; 0 when unknown) *)
   c_cond : option expr          (* None: a condition outside the modelled dialect (module probe) *)
 }.
 
@@ -272,7 +274,7 @@ Definition nth_obs {A} (i : nat) (l : list (list A)) : list A := nth i l [].
 
 (* what the comparison of strings found: specification agrees, boreal agrees, the fixed-offset
    class explained a difference, an ambiguous fullword regex is present, it explained a difference *)
-(* q_sp: 0, or the class (11, 17) of a per-string finding that explained a difference on this input
+(* q_sp: 0, or the class (11) of a per-string finding that explained a difference on this input
    (such a difference may also change the verdicts of the rules that use the string) *)
 Record sres := { q_spec : bool; q_boreal : bool; q_fix : bool; q_amb : bool; q_amb_used : bool; q_sp : N }.
 Definition mk_sres (sp bo fx am amu : bool) (st : N) : sres :=
@@ -282,7 +284,8 @@ Definition sres_and (a b : sres) : sres :=
   mk_sres (q_spec a && q_spec b) (q_boreal a && q_boreal b) (q_fix a || q_fix b) (q_amb a || q_amb b)
           (q_amb_used a || q_amb_used b) (N.max (q_sp a) (q_sp b)).
 
-(* ---- recorded finding 17: a regex with a bracketed class that denotes the empty set (`[^\w\W]`,
+(* ---- finding 17 (C07-empty-class, fixed in /repo by 861b829; the predicate is kept for the record and is
+   no longer used by the case term): a regex with a bracketed class that denotes the empty set (`[^\w\W]`,
    `[^\x00-\xff]`, `[^\w\D]`).  Nothing can match it (libyara, Spec/Regex.v); boreal's literal
    extraction drops the class, as if it matched the empty string. *)
 Fixpoint hsub (p : hir -> bool) (h : hir) {struct h} : bool :=
@@ -304,27 +307,36 @@ Definition K_START_POS : N := 11.
 Definition K_EMPTY_CLASS : N := 17.
 
 (* ---- recorded finding 11 (C02/C03-start-position seen from libyara's side): boreal drops a start
-   that is found from a later atom hit and is smaller than the last offset already recorded.
-   Without the implementation's decomposition the class is recognised by its shape: a hex or regex
-   string; boreal reports nothing that libyara does not; every match (o, l) it misses contains a
-   later start that boreal did record (o < o' < o + l). *)
+   that is found from a later atom hit and is smaller than the last offset already saved
+   (`start_position = last.offset + 1`).  The class is recognised by the shape of the disagreement: a
+   hex or regex string; boreal reports nothing that libyara does not; every match (o, l) it misses
+   has a later start o' that boreal did save.
+   * One literal (nlits <= 1): hits come in increasing position, the hit that would give o lies
+     inside [o, o + l) and the hit that saved o' is not after it, so o' lies inside the missed match:
+     o < o' < o + l is required.
+   * Several literals (nlits > 1, e.g. an alternation with a long literal and one-byte branches):
+     the validator of one literal can save, early, a start that lies far after the hits of the
+     other literals still to come (`/_\b_c11_A xa|\D/` on `__c11_A xa`: the long literal's hit saves
+     offset 9 through the `\D` branch before the one-byte hits at 3, 4, 7, 8 are handled), so only
+     o < o' can be required.  nlits comes from the implementation (hook), as in C02/C03. *)
 Definition is_pattern (s : sdecl) : bool := match s with SText _ => false | _ => true end.
-Definition start_position_shape (s : sdecl) (m : bytes) (y b : list (N * N)) : bool :=
+Definition start_position_shape (s : sdecl) (m : bytes) (nlits : N) (y b : list (N * N)) : bool :=
   is_pattern s
   && forallb (fun bo => existsb (fun yo => (fst yo =? fst bo)
                                   && (negb (uniq_len s m (fst yo)) || (snd yo =? snd bo))) y) b
   && forallb (fun yo => existsb (fun bo => fst yo =? fst bo) b
-                        || existsb (fun bo => (fst yo <? fst bo) && (fst bo <? fst yo + snd yo)) b) y.
+                        || existsb (fun bo => (fst yo <? fst bo)
+                                              && ((1 <? nlits) || (fst bo <? fst yo + snd yo))) b) y.
 
 (* strings of one rule on one input *)
-Fixpoint strings_check (cond : option expr) (m : bytes) (ss : list sdecl) (v : nat)
+Fixpoint strings_check (cond : option expr) (m : bytes) (ss : list sdecl) (nl : list N) (v : nat)
          (ys bs : list (list (N * N))) : sres :=
   match ss with
   | [] => sres_ok
   | s :: rest =>
       let y := nth_obs v ys in
       let b := nth_obs v bs in
-      sres_and (strings_check cond m rest (S v) ys bs)
+      sres_and (strings_check cond m rest nl (S v) ys bs)
       (if fullword_ambiguous s m then
         let agree := list_eqb (pair_eqb N.eqb N.eqb) y b in
         mk_sres true true false true (negb agree) 0
@@ -339,10 +351,8 @@ Fixpoint strings_check (cond : option expr) (m : bytes) (ss : list sdecl) (v : n
         mk_sres sp (exact || relaxed) (negb exact && relaxed) false false 0
       else
         let exact := string_agree s m y b in
-        let shape := negb exact && start_position_shape s m y b in
-        let ec := negb exact && has_empty_class s in
-        mk_sres (string_spec_ok s m y) (exact || shape || ec) false false false
-                (if ec then K_EMPTY_CLASS else if shape then K_START_POS else 0))
+        let shape := negb exact && start_position_shape s m (nth v nl 0) y b in
+        mk_sres (string_spec_ok s m y) (exact || shape) false false false (if shape then K_START_POS else 0))
   end.
 
 (* a rule that is not reported (private): its strings cannot be compared; an ambiguous one makes the
@@ -413,9 +423,9 @@ Fixpoint rules_strings (m : bytes) (rs : list crule) (yobs bobs : list obs) : sr
   | r :: rr, y :: yr, b :: br =>
       sres_and (rules_strings m rr yr br)
       match y, b with
-      | Some (_, ys), Some (_, bs) => strings_check (c_cond r) m (c_strings r) 0 ys bs
+      | Some (_, ys), Some (_, bs) => strings_check (c_cond r) m (c_strings r) (c_nlits r) 0 ys bs
       | None, None => hidden_check m (c_strings r)
-      | Some (_, ys), None => no_boreal (strings_check (c_cond r) m (c_strings r) 0 ys [])
+      | Some (_, ys), None => no_boreal (strings_check (c_cond r) m (c_strings r) (c_nlits r) 0 ys [])
       | None, Some _ => no_boreal (hidden_check m (c_strings r))
       end
   | [], [], [] => sres_ok
@@ -493,7 +503,8 @@ Definition C07_case (rs : list crule) (ins : list bytes) (ys bs : list (list obs
 
 (* libyara compiled the file, boreal did not (rejected, or panicked): a violation unless the file is
    in a class that documents it *)
-(* ---- recorded finding 18: boreal panics while scanning (`invalid span a..b for haystack`, a > b, raised by
+(* ---- finding 18 (C07-regex-span-panic, fixed in /repo by c526a27; kept for the record, no longer used by
+   C07_rejected): boreal panicked while scanning (`invalid span a..b for haystack`, a > b, raised by
    the regex engine on the span boreal hands it) with a regex string that contains a word-boundary
    assertion: `/_\b_c11_A xa|\D/` on `__c11_A xa`.  Class: boreal panicked and some regex string of the
    file has `\b` or `\B`. *)
@@ -509,5 +520,4 @@ Definition K_SPAN_PANIC : N := 18.
 Definition C07_rejected (rs : list crule) (panicked : bool) : bool * bool * N :=
   let kc := cond_class rs in
   if panicked && (kc =? K_GLOBAL_REFS) then (true, false, K_GLOBAL_REFS)
-  else if panicked && existsb (fun r => existsb has_word_boundary (c_strings r)) rs then (true, false, K_SPAN_PANIC)
   else (true, false, 0).
